@@ -152,9 +152,14 @@ def case_iterate(log, order, nf, method, shape="complex"):
         if nf is None and order == 4 and shape == "real":
             assume(SR.var("r3") - 2 * a0, ">0")
         o = (order, 0)
-        with env:
-            ES = sg.dispatcher(o, m, gs, a1, a0, nfs, 1, o)
-            ENs = [ns.dispatcher(o, EvoMethods.ITERATE_EXACT, g, a1, a0, nfs) for g in (p, q)]
+        saved_ad = sg.ad
+        sg.ad = AdSeries(saved_ad)  # exp_matrix_2D by its contract (C23): power series of the matrix exponential in the step
+        try:
+            with env:
+                ES = sg.dispatcher(o, m, gs, a1, a0, nfs, 1, o)
+                ENs = [ns.dispatcher(o, EvoMethods.ITERATE_EXACT, g, a1, a0, nfs) for g in (p, q)]
+        finally:
+            sg.ad = saved_ad
         for (i, j) in ((0, 1), (1, 0)):
             if not _zero_through(log, as_jet(ES[i, j]), 3, "singlet %s order %d nf %s: off-diagonal [%d,%d] == O(eps^3)" % (method, order, nf, i, j), key + ":offdiag", rp):
                 return
@@ -309,14 +314,13 @@ def main():
                   "gamma_k = diag(p_k, q_k), p_k, q_k real symbols; a0 != a1 in (0, 1/10)",
                   "perturbative / ordered-truncated-vs-ordered-truncated: equality through lam^(n-1) (ev_op_iterations=1, ev_op_max_order=n)",
                   "iterate: one step a0 -> a0(1+eps), equality with the exact non-singlet kernel through eps^2"]
-    chk.stubs = ["eko.beta -> BetaProxy (symbolic beta_k) inside eko.kernels.singlet / non_singlet", "as4_evolution_integrals.roots -> symbolic roots + Vieta (order 4)"]
+    chk.stubs = ["ekore exp_matrix_2D -> power series of the matrix exponential in the iterate (series-valued) cases only (C23 decides it computes the exponential)", "eko.beta -> BetaProxy (symbolic beta_k) inside eko.kernels.singlet / non_singlet", "as4_evolution_integrals.roots -> symbolic roots + Vieta (order 4)"]
     chk.out_of_claim = ["floating point; more than one iteration (C12 gives the per-step order)",
                         "iterate-expanded is compared with the exact non-singlet kernel because the singlet code runs eko_iterate for both labels"]
     shapes = {2: [None], 3: [None], 4: ["complex", "real"] if thorough else ["complex"]}
     # quick tier: the heavy exact-NNLO/N3LO decompose comparisons with symbolic beta and the higher-order iterate cases
     # are left to the thorough tier (decompose-exact at NNLO stays in quick through the concrete nf=4 run below)
-    heavy = {("exact", "DECOMPOSE_EXACT", 3), ("exact", "DECOMPOSE_EXACT", 4), ("iterate", "ITERATE_EXACT", 3), ("iterate", "ITERATE_EXPANDED", 3),
-             ("iterate", "ITERATE_EXACT", 4), ("iterate", "ITERATE_EXPANDED", 4), ("jets", "ORDERED_TRUNCATED", 4), ("jets", "PERTURBATIVE_EXPANDED", 4)}
+    heavy = set()
     for o in (2, 3, 4):
         for sh in shapes[o]:
             tag = ("." + sh) if sh else ""
